@@ -228,4 +228,17 @@ theorem period_head (p zs : Str) (o : Option Int) (hz : TzFrag zs o) (hp : ':' â
     have : (Int.ofNat (p ++ zs).length).toNat = (p ++ zs).length := Int.toNat_natCast _
     rw [this, List.take_length]
 
+theorem daysInMonth_pos (y : Int) (m : Nat) : 1 â‰¤ daysInMonth y m := by
+  unfold daysInMonth
+  split
+  Â· split <;> omega
+  Â· split <;> omega
+
+theorem ofString_tight (e : Env) (pre post s : Str) (hpre : AllXsdSpace pre)
+    (hpost : AllXsdSpace post) (ht : Xs.Conv.Tight e.isSpace s) (p : TimePeriod)
+    (h : parsePeriod e s = some p) : XmlPeriod.ofString e (pre ++ s ++ post) = some (s, p) := by
+  unfold XmlPeriod.ofString
+  simp only []
+  rw [strip_xsd_pad e pre s post hpre hpost ht, h]; rfl
+
 end Proofs.PeriodAccept
